@@ -223,3 +223,29 @@ class SolverCapture:
         for name, f in self.orig_inner.items():
             setattr(self.Q, name, f)
         return False
+
+
+def emit_inaccuracy_warning():
+    """Issues the solver's 'Solution may be inaccurate' warning exactly as the installed cvxpy would from inside
+    elexsolver.QuantileRegressionSolver: through cvxpy's own helper (which attributes the warning to the first frame outside
+    cvxpy) called from a frame whose module is elexsolver.QuantileRegressionSolver.  Whether this becomes an exception is up to
+    the warnings filters the library installed -- that is the behaviour under test."""
+    _imp()
+    import elexsolver.QuantileRegressionSolver as qmod
+
+    ns = qmod.__dict__
+    if "_verif_emit_inaccurate" not in ns:
+        src = (
+            "def _verif_emit_inaccurate():\n"
+            "    msg = ('Solution may be inaccurate. Try another solver, adjusting the solver settings, or solve with '\n"
+            "           'verbose=True for more information.')\n"
+            "    try:\n"
+            "        from cvxpy.utilities.warn import warn as _w\n"
+            "    except ImportError:\n"
+            "        import warnings as _wa\n"
+            "        _wa.warn_explicit(msg, UserWarning, 'cvxpy/problems/problem.py', 1, module='cvxpy.problems.problem', registry={})\n"
+            "        return\n"
+            "    _w(msg)\n"
+        )
+        exec(src, ns)  # noqa: S102  (defined in the solver module's namespace so that the frame's module is the solver's)
+    ns["_verif_emit_inaccurate"]()
